@@ -580,6 +580,15 @@ func valueRows(v ssa.Value, depth int, visiting map[ssa.Value]bool) []vrow {
 			}
 		}
 	}
+	if c, ok := v.(*ssa.Call); ok {
+		if g := staticCallee(c); g != nil && g.Parent() != nil && g.Signature.Results().Len() == 1 {
+			var out []vrow
+			for _, ret := range returnsOf(g) {
+				out = append(out, vrow{guards: guardsOf(ret.Block()), at: ret, call: c, val: ret.Results[0]})
+			}
+			return out
+		}
+	}
 	if ph, ok := v.(*ssa.Phi); ok {
 		visiting[v] = true
 		defer delete(visiting, v)
